@@ -1,5 +1,7 @@
 // C09 - the config parser delivers every line once, in order, to the innermost open context.
 #include "../../engine/rcglue.hpp"
+#include <dirent.h>
+#include <unistd.h>
 #include "../../engine/latrack.hpp"
 #include <fstream>
 #include <strings.h>
@@ -134,9 +136,20 @@ struct Interp {
         depth = (long)st.size() - 1;
     }
 
+    // the case's own directory is removed again (best effort): a thorough run makes hundreds of thousands of them
+    std::string case_dir;
+    void done_ok() {
+        const std::string &dir = case_dir;
+        if (chdir("/") == 0 && !dir.empty()) {
+            if (DIR *dp = opendir(dir.c_str())) { while (dirent *e = readdir(dp)) if (e->d_name[0] != '.') unlink((dir + "/" + e->d_name).c_str()); closedir(dp); }
+            rmdir(dir.c_str());
+        }
+        ctx.ok();
+    }
     void run(const Case &c) {
         ht_install();
         std::string dir = config().scratch_dir + "/c09-" + std::to_string(getpid());
+        case_dir = dir;
         mkdir(dir.c_str(), 0700);
         VT_CHECK(ctx, chdir(dir.c_str()) == 0, "harness", "chdir failed");
         cf_names("vtapp", "1.2.3");
@@ -182,7 +195,7 @@ struct Interp {
         if (max_depth > 255) {   // deeper than the parser's 8-bit context index can count: outside the property
             ctx.label("out-of-scope:nesting-deeper-than-255");
             LA(cf_free());
-            ctx.ok();
+            done_ok();
         }
         int fds0 = cf_fd_census();
         int ok = LA(cf_parse("f0.cfg", nullptr, nullptr));
@@ -220,7 +233,7 @@ struct Interp {
             if (any_include && ctx.quarantined("include-path-leak") && ht_live_all_cstr_suffix(".cfg")) ctx.excluded("KF-C11-1");   // exactly the known finding: nothing but %include path strings is live
             else ctx.fail("leak", std::string("heap-not-balanced; blocks live after spifconf_free_subsystem(): ") + b + (any_include ? " (includes were used)" : ""));
         }
-        ctx.ok();
+        done_ok();
     }
     std::string hname(int h) { if (h == 31) return "null(own)"; if (h >= 0 && h < (int)reg.size()) return reg[(size_t)h]; return "handler" + std::to_string(h); }
 };
